@@ -1268,7 +1268,7 @@ def evaluate__json_to_xml(self: XPathFunction, context: ta.ContextType = None) \
         raise self.missing_context()
 
     def _fallback(*a: Any, **kw: Any) -> str:
-        return '&#xFFFD;'
+        return '\uFFFD'  # the replacement character itself: the result is not parsed as XML
 
     liberal = False
     validate = False
